@@ -75,8 +75,9 @@ pub fn filter_simd(array: &dyn Array, predicate: &[bool]) -> Result<ArrayRef> {
 
             let mut values = Vec::new();
             for (i, &valid) in predicate.iter().enumerate() {
-                if valid && !int_array.is_null(i) {
-                    values.push(int_array.value(i));
+                // A selected NULL row stays in the output as NULL (Arrow `filter`).
+                if valid {
+                    values.push(int_array.is_valid(i).then(|| int_array.value(i)));
                 }
             }
 
@@ -90,8 +91,9 @@ pub fn filter_simd(array: &dyn Array, predicate: &[bool]) -> Result<ArrayRef> {
 
             let mut values = Vec::new();
             for (i, &valid) in predicate.iter().enumerate() {
-                if valid && !float_array.is_null(i) {
-                    values.push(float_array.value(i));
+                // A selected NULL row stays in the output as NULL (Arrow `filter`).
+                if valid {
+                    values.push(float_array.is_valid(i).then(|| float_array.value(i)));
                 }
             }
 
@@ -105,8 +107,9 @@ pub fn filter_simd(array: &dyn Array, predicate: &[bool]) -> Result<ArrayRef> {
 
             let mut values = Vec::new();
             for (i, &valid) in predicate.iter().enumerate() {
-                if valid && !bool_array.is_null(i) {
-                    values.push(bool_array.value(i));
+                // A selected NULL row stays in the output as NULL (Arrow `filter`).
+                if valid {
+                    values.push(bool_array.is_valid(i).then(|| bool_array.value(i)));
                 }
             }
 
@@ -150,6 +153,24 @@ pub enum CompareOp {
     Ge,
 }
 
+/// Validity of a binary kernel's result: NULL wherever either input is NULL
+/// (what Arrow's `eq`/`lt`/`add`/... produce).
+fn binary_nulls(left: &dyn Array, right: &dyn Array) -> Option<arrow::buffer::NullBuffer> {
+    arrow::buffer::NullBuffer::union(left.nulls(), right.nulls())
+}
+
+/// Both inputs of a binary kernel must have the same number of rows.
+fn check_same_len(left: &dyn Array, right: &dyn Array) -> Result<()> {
+    if left.len() != right.len() {
+        return Err(QueryError::Execution(format!(
+            "Left length {} != right length {}",
+            left.len(),
+            right.len()
+        )));
+    }
+    Ok(())
+}
+
 fn compare_eq(left: &dyn Array, right: &dyn Array) -> Result<BooleanArray> {
     match left.data_type() {
         DataType::Int64 => {
@@ -167,7 +188,7 @@ fn compare_eq(left: &dyn Array, right: &dyn Array) -> Result<BooleanArray> {
                 values[i] = left_arr.value(i) == right_arr.value(i);
             }
 
-            Ok(BooleanArray::from(values))
+            Ok(BooleanArray::new(values.into(), binary_nulls(left, right)))
         }
         DataType::Float64 => {
             let left_arr = left
@@ -184,7 +205,7 @@ fn compare_eq(left: &dyn Array, right: &dyn Array) -> Result<BooleanArray> {
                 values[i] = left_arr.value(i) == right_arr.value(i);
             }
 
-            Ok(BooleanArray::from(values))
+            Ok(BooleanArray::new(values.into(), binary_nulls(left, right)))
         }
         _ => Err(QueryError::Execution(format!(
             "Unsupported type for EQ comparison: {:?}",
@@ -199,7 +220,7 @@ fn compare_ne(left: &dyn Array, right: &dyn Array) -> Result<BooleanArray> {
     for i in 0..left.len() {
         values[i] = !eq_result.value(i);
     }
-    Ok(BooleanArray::from(values))
+    Ok(BooleanArray::new(values.into(), eq_result.nulls().cloned()))
 }
 
 fn compare_lt(left: &dyn Array, right: &dyn Array) -> Result<BooleanArray> {
@@ -219,7 +240,7 @@ fn compare_lt(left: &dyn Array, right: &dyn Array) -> Result<BooleanArray> {
                 values[i] = left_arr.value(i) < right_arr.value(i);
             }
 
-            Ok(BooleanArray::from(values))
+            Ok(BooleanArray::new(values.into(), binary_nulls(left, right)))
         }
         DataType::Float64 => {
             let left_arr = left
@@ -236,7 +257,7 @@ fn compare_lt(left: &dyn Array, right: &dyn Array) -> Result<BooleanArray> {
                 values[i] = left_arr.value(i) < right_arr.value(i);
             }
 
-            Ok(BooleanArray::from(values))
+            Ok(BooleanArray::new(values.into(), binary_nulls(left, right)))
         }
         _ => Err(QueryError::Execution(format!(
             "Unsupported type for LT comparison: {:?}",
@@ -252,7 +273,7 @@ fn compare_le(left: &dyn Array, right: &dyn Array) -> Result<BooleanArray> {
     for i in 0..left.len() {
         values[i] = lt_result.value(i) || eq_result.value(i);
     }
-    Ok(BooleanArray::from(values))
+    Ok(BooleanArray::new(values.into(), lt_result.nulls().cloned()))
 }
 
 fn compare_gt(left: &dyn Array, right: &dyn Array) -> Result<BooleanArray> {
@@ -265,6 +286,9 @@ fn compare_ge(left: &dyn Array, right: &dyn Array) -> Result<BooleanArray> {
 
 /// SIMD-optimized add operation
 pub fn add_simd(left: &dyn Array, right: &dyn Array) -> Result<ArrayRef> {
+    check_same_len(left, right)?;
+    // NULL in either input yields NULL; values under a NULL slot are never read.
+    let valid = |i: usize| left.is_valid(i) && right.is_valid(i);
     match left.data_type() {
         DataType::Int64 => {
             let left_arr = left
@@ -276,12 +300,11 @@ pub fn add_simd(left: &dyn Array, right: &dyn Array) -> Result<ArrayRef> {
                 .downcast_ref::<Int64Array>()
                 .ok_or_else(|| QueryError::Execution("Failed to downcast right".to_string()))?;
 
-            let mut values = Vec::with_capacity(left.len());
-            for i in 0..left.len() {
-                values.push(left_arr.value(i) + right_arr.value(i));
-            }
+            let values: Int64Array = (0..left.len())
+                .map(|i| valid(i).then(|| left_arr.value(i) + right_arr.value(i)))
+                .collect();
 
-            Ok(Arc::new(Int64Array::from(values)))
+            Ok(Arc::new(values))
         }
         DataType::Float64 => {
             let left_arr = left
@@ -293,12 +316,11 @@ pub fn add_simd(left: &dyn Array, right: &dyn Array) -> Result<ArrayRef> {
                 .downcast_ref::<Float64Array>()
                 .ok_or_else(|| QueryError::Execution("Failed to downcast right".to_string()))?;
 
-            let mut values = Vec::with_capacity(left.len());
-            for i in 0..left.len() {
-                values.push(left_arr.value(i) + right_arr.value(i));
-            }
+            let values: Float64Array = (0..left.len())
+                .map(|i| valid(i).then(|| left_arr.value(i) + right_arr.value(i)))
+                .collect();
 
-            Ok(Arc::new(Float64Array::from(values)))
+            Ok(Arc::new(values))
         }
         _ => Err(QueryError::Execution(format!(
             "Unsupported type for add: {:?}",
@@ -309,6 +331,9 @@ pub fn add_simd(left: &dyn Array, right: &dyn Array) -> Result<ArrayRef> {
 
 /// SIMD-optimized multiply operation
 pub fn multiply_simd(left: &dyn Array, right: &dyn Array) -> Result<ArrayRef> {
+    check_same_len(left, right)?;
+    // NULL in either input yields NULL; values under a NULL slot are never read.
+    let valid = |i: usize| left.is_valid(i) && right.is_valid(i);
     match left.data_type() {
         DataType::Int64 => {
             let left_arr = left
@@ -320,12 +345,11 @@ pub fn multiply_simd(left: &dyn Array, right: &dyn Array) -> Result<ArrayRef> {
                 .downcast_ref::<Int64Array>()
                 .ok_or_else(|| QueryError::Execution("Failed to downcast right".to_string()))?;
 
-            let mut values = Vec::with_capacity(left.len());
-            for i in 0..left.len() {
-                values.push(left_arr.value(i) * right_arr.value(i));
-            }
+            let values: Int64Array = (0..left.len())
+                .map(|i| valid(i).then(|| left_arr.value(i) * right_arr.value(i)))
+                .collect();
 
-            Ok(Arc::new(Int64Array::from(values)))
+            Ok(Arc::new(values))
         }
         DataType::Float64 => {
             let left_arr = left
@@ -337,12 +361,11 @@ pub fn multiply_simd(left: &dyn Array, right: &dyn Array) -> Result<ArrayRef> {
                 .downcast_ref::<Float64Array>()
                 .ok_or_else(|| QueryError::Execution("Failed to downcast right".to_string()))?;
 
-            let mut values = Vec::with_capacity(left.len());
-            for i in 0..left.len() {
-                values.push(left_arr.value(i) * right_arr.value(i));
-            }
+            let values: Float64Array = (0..left.len())
+                .map(|i| valid(i).then(|| left_arr.value(i) * right_arr.value(i)))
+                .collect();
 
-            Ok(Arc::new(Float64Array::from(values)))
+            Ok(Arc::new(values))
         }
         _ => Err(QueryError::Execution(format!(
             "Unsupported type for multiply: {:?}",
